@@ -1,6 +1,6 @@
 #!/bin/bash
 # multi-seed silence sweep on the unchanged tree: ./tools/sweep.sh "<props>" "<seeds>"
-cd /verif
+cd "$(dirname "$0")/.."
 for s in $2; do for p in $1; do
   out=$(VERIF_SEED=$s ./check $p quick 2>&1 | grep -v "^KNOWN-FINDING" | tail -3 | cut -c1-300 | tr '\n' ' ')
   echo "seed=$s $p: $out"
